@@ -34,7 +34,7 @@ package acrablock
 // it is unwrapped with one of the caller's keys under the caller's context, the payload is what follows the key, and the
 // plaintext handed back is exactly what the data back end returned for (unwrapped key, payload, caller's context).
 //@ func (b AcraBlock) Decrypt(keys [][]byte, context []byte) (out []byte, err error)
-//@   props C01 C02 C03 C14
+//@   props C01 C02 C03 C06 C14 C15
 //@   safety
 //@   requires validBlock(b)
 //@   ensures err != nil ==> out == nil
